@@ -16,7 +16,10 @@ CATS = ["default", "app", "app.net", "net.x", ""]
 
 # texts that differ only in case / whitespace / normalisation / emptiness
 TEXTS = [[], None, [97], [65], [97, 32], [32, 97], [97, 98], [98, 97], [0xE9], [0x65, 0x301], [97, 10], [10],
-         [97, 98, 97], [0x200B], [0xD83D, 0xDE42, 97], [97, 97], [120, 98, 98, 121], [97, 98, 97, 98]]
+         [97, 98, 97], [0x200B], [0xD83D, 0xDE42, 97], [97, 97], [120, 98, 98, 121], [97, 98, 97, 98],
+         # different texts with the same 31-polynomial hash (qHash of a QString, seed 0), and one that hashes like ""
+         [65, 97], [66, 66], [0]]
+COLLIDING = [[65, 97], [66, 66], [0], [], [65, 97, 65, 97], [66, 66, 66, 66], [65, 97, 66, 66]]
 
 
 def u(s):
@@ -215,6 +218,8 @@ def gen_builtin_scenario(rnd, sid):
     g.ops.append({"op": "append", "p": root, "h": a, "via": "append"})
     g.ops.append({"op": "append", "p": root, "h": b, "via": "append"})
     pool = rnd.sample(TEXTS, 4)
+    if rnd.random() < 0.35:
+        pool = rnd.sample(COLLIDING, 3) + rnd.sample(TEXTS, 2)    # "equal" must mean equal text, not equal digest
     if any(o.get("op") == "new" and o["d"].get("rx") == "backref" for o in g.ops):
         pool += [[97, 97], [120, 98, 98, 121]]      # texts the back-reference is about
     n = rnd.randint(20, 200)
@@ -253,7 +258,8 @@ def gen_builtin_tables(first_id):
                 scenario({"kind": "regex", "rx": rx, "lit": lit, "lit2": lit2, "ctor": ctor}, all_texts)
     for mn in TYPES:
         scenario({"kind": "level", "min": mn}, [msg(t, [97]) for t in TYPES])
-    run = [[97], [97], [98], [98], [98], [97], [], [], None, None, [97, 32], [97], [65], [97]]
+    run = [[0], [97], [97], [98], [98], [98], [97], [], [], None, None, [97, 32], [97], [65], [97],
+           [65, 97], [66, 66], [66, 66], [65, 97], [65, 97, 66, 66], [66, 66, 65, 97], [66, 66, 66, 66], [0], []]
     scenario({"kind": "dup"}, [msg(TYPES[i % len(TYPES)], t) for i, t in enumerate(run)])
     scenario({"kind": "seq", "name": "seq_number"}, [msg("debug", [97]) for _ in range(12)])
     return out
